@@ -85,8 +85,9 @@ Section MathSites.
     Forall (fun t => buf_is_space t = true) pre.
   Proof.
     induction b as [|t b IH]; [exists []; split; [reflexivity | constructor]|].
-    cbn [skip_ctl]. destruct (buf_is_space t && negb (is_lang t)) eqn:E.
-    - apply andb_true_iff in E. destruct E as [E _]. destruct IH as (pre & E1 & F).
+    cbn [skip_ctl]. destruct (buf_is_space t && negb (is_lang t) && negb (is_action t)) eqn:E.
+    - apply andb_true_iff in E. destruct E as [E _].
+      apply andb_true_iff in E. destruct E as [E _]. destruct IH as (pre & E1 & F).
       exists (t :: pre). split; [cbn [app]; f_equal; exact E1 | constructor; assumption].
     - exists []. split; [reflexivity | constructor].
   Qed.
@@ -95,7 +96,7 @@ Section MathSites.
   Proof.
     intros Hc. induction b as [|t b IH]; cbn [app skip_ctl].
     - rewrite Hc. reflexivity.
-    - destruct (buf_is_space t && negb (is_lang t)); [exact IH | reflexivity].
+    - destruct (buf_is_space t && negb (is_lang t) && negb (is_action t)); [exact IH | reflexivity].
   Qed.
   Lemma mconv_spaces st pre : Forall (fun t => buf_is_space t = true) pre ->
     flat_map (mconv st) pre = [].
